@@ -200,6 +200,15 @@ func marathon(r *ev.Run, idx int) {
 			return
 		}
 		r.Count("marathon.state.equal", 1)
+		if rng.Intn(11) == 0 {
+			// the producer restarts too: its pool is reloaded from disk, its caches are cold
+			if err := p.Reopen(); err != nil {
+				r.Inconclusive(err.Error())
+				return
+			}
+			ops = append(ops, fmt.Sprintf("r%d:producer-restart", round))
+			r.Count("marathon.producer-restarts", 1)
+		}
 		if rng.Intn(7) == 0 {
 			if err := f.Reopen(); err != nil {
 				r.Inconclusive(err.Error())
